@@ -101,8 +101,9 @@ Inductive cstate := CIdle             (* nothing yet *)
 Inductive outcome := OResp (st : N)   (* answered by http.server / the gate without entering a handler *)
                    | OHandled         (* the handler returned and its response was written completely *)
                    | OTimeout         (* socket.timeout while waiting for the request head *)
-                   | OAborted         (* socket.timeout inside the handler while it waited for the request body:
-                                         the exception ends the handler, __call__ answers 500 *)
+                   | OAborted         (* socket.timeout inside the handler while it waited for the request body: the
+                                         handler ends (the real handlers catch it and answer 408 REQUEST_TIMEOUT; an
+                                         exception that escapes a handler is answered 500 by __call__) *)
                    | OEof.            (* the client closed before sending a request *)
 
 (* WReading starts AT ACCEPT: get_request calls settimeout before the thread exists, so the socket timeout covers
